@@ -3,6 +3,7 @@ package explore
 import (
 	"fmt"
 	"os"
+	"runtime/debug"
 	"sort"
 	"strings"
 	"sync"
@@ -156,6 +157,9 @@ func faultsApplicable(c *world.Call, kinds []string) []string {
 // Search explores the closure of the seeds under progress transitions and up
 // to D deviations, running the monitors on every reconcile edge.
 func Search(rep *Report, cfg SearchCfg, seeds []Seed) *Graph {
+	if os.Getenv("VERIF_GOGC") == "" {
+		debug.SetGCPercent(100) // large live heap
+	}
 	g := &Graph{Nodes: map[world.Key]*Node{}, Seeds: seeds, Cfg: cfg, Complete: true}
 	if cfg.Key == "" {
 		cfg.Key = world.NS + "/web"
